@@ -30,8 +30,8 @@ WORKERS = int(os.environ.get("VERIF_C12_WORKERS", "8"))
 TIERS = {
     # cfg, L2 (sequence objects / old sixframes / app.translate_frames): all strings up to this length
     # plus a seeded sample of the longer ones
-    "quick": dict(cfgs=["MC_GeneticCode_quick.cfg"], l2_len=3, l2_sample=240),
-    "thorough": dict(cfgs=["MC_GeneticCode_thorough.cfg", "MC_GeneticCode_thorough_codes.cfg", "MC_GeneticCode_thorough_pairs.cfg"], l2_len=4, l2_sample=2000),
+    "quick": dict(cfgs=["MC_GeneticCode_quick.cfg", "MC_GeneticCode_long_quick.cfg"], l2_len=3, l2_sample=240),
+    "thorough": dict(cfgs=["MC_GeneticCode_thorough.cfg", "MC_GeneticCode_thorough_codes.cfg", "MC_GeneticCode_thorough_pairs.cfg", "MC_GeneticCode_long_thorough.cfg"], l2_len=4, l2_sample=2000),
 }
 
 
@@ -40,7 +40,9 @@ def _work(item):
     out = E.Out()
     try:
         if layer == "L1":
-            E.check_frames_gc(rec, out, rna=rec["kind"] == "seqB")
+            E.check_frames_gc(rec, out, rna=rec["kind"] in ("seqB", "seqL"))
+        elif layer == "L2L":
+            E.check_frames_long(rec, out)
         elif layer == "L2":
             E.check_frames_seq(rec, out)
         elif layer == "L3G":  # the operations on one input, sharing the real objects built from it
@@ -90,7 +92,8 @@ def check(run: Run):
         recs = []
         for i, cfg in enumerate(tier["cfgs"]):
             emit = scratch / f"emit{i}.ndjson"
-            res = run_tlc("GeneticCode", cfg, scratch, workers=WORKERS, env={"EMIT_FILE": emit}, heap="6g")
+            # the long family emits lines far beyond the pipe-atomic size: one worker, so lines cannot interleave
+            res = run_tlc("GeneticCode", cfg, scratch, workers=1 if "_long_" in cfg else WORKERS, env={"EMIT_FILE": emit}, heap="6g")
             run.add_tlc(res)
             n0 = len(recs)
             recs.extend(read_emitted(emit))
@@ -115,7 +118,11 @@ def check(run: Run):
             table_codes.add(r["code"])
         if r["act"] == "Frames":
             items.append(("L1", r))
-            if r["kind"] == "seqB" or len(r["seq"]) <= tier["l2_len"]:
+            if r["kind"] == "seqL":
+                items.append(("L2L", r))
+                if len(r["seq"]) <= 4000:
+                    items.append(("L2", r))
+            elif r["kind"] == "seqB" or len(r["seq"]) <= tier["l2_len"]:
                 items.append(("L2", r))
             else:
                 long_frames.append(r)
@@ -181,7 +188,7 @@ def check(run: Run):
     # genetic-code layer and the sequence-object layer ran it)
     l1 = {id(r) for layer, r in items if layer == "L1"}
     run.cov["traces_validated_against_impl"] = sum(
-        len(r) if layer == "L3G" else (0 if layer == "L2" and id(r) in l1 else 1) for layer, r in items
+        len(r) if layer == "L3G" else (0 if layer in ("L2", "L2L") and id(r) in l1 else 1) for layer, r in items
     )
     run.cov["evaluations"] = total
     run.cov["distinct_nontrivial"] = len(recs) - sum(1 for r in recs if r["act"] in ("Frames", "GetTranslation", "StopOps") and len(r["seq"]) < 3)
@@ -227,6 +234,7 @@ def check(run: Run):
         "a frame offset at or beyond the end of a non-empty sequence may be refused (old GeneticCode.translate raises ValueError by design): counted as refusals_allowed_by_spec",
         "a trailing incomplete codon with trim_stop and not incomplete_ok may be refused or dropped (the statement leaves it open)",
         "'-' and '?' are checked for complement / rc / degeneracy only (their resolution depends on allow_gap); protein X is not checked (alphabet-dependent), B and Z are",
+        "long family (lengths around 2^8 codons in quick; 2^8 / 2^16 bases and codons, 300 and 1000 codons in thorough): the sequence is generated and its six expected proteins are computed by TLC with the same per-codon Translate of the spec (emitted by a single-worker TLC run, lines exceed the atomic write size); strings above 4000 bases skip the old-style sequence / collection objects",
         "best_frame / select_translatable ORF heuristics are not covered",
     ]
 
